@@ -685,13 +685,13 @@ static int Random(int argc, char ** argv)
          if (!have) st = Step("Pump");
          const std::string a = st["a"].str();
          const bool armedBefore = w.arm.on;
+         hist.push(st); SetCur(mj::ToString(hist));        // (before the call: a watchdog / crash report must name the step that did it)
          const J got = Exec(st); steps++; callbacks += (long) got["ev"].size();
          if ((armedBefore)&&(!w.arm.on)) nested++;
          if (a == "Cleanup") cleaned = true;
          Monitor(false);
          J row = st; row.set("r", got["r"]).set("ev", got["ev"]).set("snap", got["snap"]).set("h", J::Int(h)).set("k", J::Int(k));
-         rows.push_back(row); hist.push(st);
-         SetCur(mj::ToString(hist));
+         rows.push_back(row);
       }
       FinishWorld(cleaned);
       if (!cleaned) {J row = Step("Cleanup"); row.set("r", J::Int(0)).set("ev", w.ev).set("snap", w.Snapshot(false, MUSCLE_TIME_NEVER)).set("h", J::Int(h)).set("k", J::Int(ns)); rows.push_back(row);}
